@@ -203,8 +203,17 @@ def _r1(repo, L, idx: Func, roles):
             return "other", "removesuffix handles one fixed terminator only"
         return "other", norm(e)
 
-    form, detail = strip_form(payload)
     inst = f"{idx.short}:payload"
+    rpl_sets = [n for s in seq_branch for n in [s, *walk_shallow(s)] if isinstance(n, ast.Assign) and is_name(n.targets[0], roles["rpl"])]
+    if len(rpl_sets) != 1:
+        raise AnalysisError("assignment of the residues-per-line figure in the sequence branch not found")
+    pv = _r1_by_probes(idx, hdr_branch, seq_branch, line, roles, writes[0], payload)
+    if pv is not None:
+        (okp, whyp, wp), (okr, whyr, wr), nprobes = pv
+        L.check(okp, "R1", inst, f"payload is the line minus its own CR/LF terminator on {nprobes} (header ending x sequence line) probes, by constant propagation", whyp, idx.loc(writes[0]), witness=wp)
+        L.check(okr, "R1", f"{idx.short}:residues_per_line", f"length of the first sequence line minus its own terminator ({nprobes} probes)", whyr, idx.loc(rpl_sets[0]), witness=wr)
+        return
+    form, detail = strip_form(payload)
     if form == "rstrip":
         ok = isinstance(detail, bytes) and set(detail) >= {10, 13} and not (set(detail) & set(b"ACGTNacgtn"))
         L.check(ok, "R1", inst, f"line.rstrip({detail!r}): removes exactly the line's own terminator bytes", f"rstrip({detail!r}) does not strip CR/LF only", idx.loc(writes[0]))
@@ -216,12 +225,9 @@ def _r1(repo, L, idx: Func, roles):
             idx.loc(writes[0]), witness={"file": ">s1\\nACGTAC\\nACG (no final newline)", "indexed length": 8, "true length": 9},
         )
     else:
-        L.fail("R1", inst, f"payload '{norm(payload)}' is not the current line minus a suffix determined by that line ({detail})", idx.loc(writes[0]))
+        raise AnalysisError(f"payload '{norm(payload)}' ({detail}): neither foldable on probe lines nor a recognised strip form; form not understood")
 
     # (b) residues per line
-    rpl_sets = [n for s in seq_branch for n in [s, *walk_shallow(s)] if isinstance(n, ast.Assign) and is_name(n.targets[0], roles["rpl"])]
-    if len(rpl_sets) != 1:
-        raise AnalysisError("assignment of the residues-per-line figure in the sequence branch not found")
     v = rpl_sets[0].value
     inst = f"{idx.short}:residues_per_line"
     ok, why = True, ""
@@ -245,6 +251,69 @@ def _r1(repo, L, idx: Func, roles):
         f"residues-per-line is '{norm(v)}': {why}. A single-line record without a final newline gets a line width one short, so random access into it reads the wrong bytes",
         idx.loc(rpl_sets[0]), witness={"file": ">s\\nACGT (no final newline)", "residues_per_line": 3},
     )
+
+
+def _r1_by_probes(idx, hdr_arm, seq_arm, line, roles, write_call, payload):
+    """Decide R1 by constant propagation: the header arm of the line loop is run on a header probe (LF / CRLF), the sequence
+    arm on probe sequence lines under each resulting state.  -> ((ok, why, witness) payload, (ok, why, witness) rpl, n) or None
+    when the arms do not fold on the probes (the caller then falls back to the syntactic forms)."""
+    from ..finite import UNKNOWN as _UNK, Opaque as _Opq, fold_env as _fold_env, run_paths as _run_paths
+    from ..fold import NotConstant as _NC
+
+    write_stmt = next((s for s in (n for b in seq_arm for n in [b, *walk_shallow(b)]) if isinstance(s, ast.Expr) and s.value is write_call), None)
+    if write_stmt is None:
+        return None
+    rpl = roles["rpl"]
+    hdrs = [b">s1\n", b">s1 desc\r\n"]
+    bodies = [b"ACGT", b"acgtNNnn-*RYK", b"N", b"A"]
+    ends = [b"\n", b"\r\n", b""]
+    okp = okr = True
+    whyp = whyr = ""
+    wp = wr = None
+    n = 0
+    for hp in hdrs:
+        states = [r["env"] for r in _run_paths(hdr_arm, {line: hp, roles["name"]: "", "name": ""}, loop_iters=(0,)) if r["path"].status != "raise"]
+        if not states:
+            return None
+        for st in states[:4]:
+            for body in bodies:
+                for end in ends:
+                    probe = body + end
+                    env0 = {k: v for k, v in st.items()}
+                    env0[line] = probe
+                    env0[rpl] = None
+                    n += 1
+                    # payload: valuation just before the buffer write
+                    cut = [r for r in _run_paths(seq_arm, env0, loop_iters=(0,), stop_at=lambda nd: nd is write_stmt) if r["stopped"] is not None]
+                    if not cut:
+                        return None
+                    for r in cut:
+                        try:
+                            val = _fold_env(payload, r["env"])
+                        except _NC:
+                            return None
+                        if val is _UNK or isinstance(val, _Opq) or not isinstance(val, bytes | bytearray):
+                            return None
+                        if bytes(val) != body and okp:
+                            okp = False
+                            whyp = (
+                                f"after a header line ending {hp[-2:]!r} the sequence line {probe!r} is buffered as {bytes(val)!r}, not {body!r}: "
+                                "the residue count, the residues-per-line figure and every run coordinate derived from the buffer are wrong"
+                            )
+                            wp = {"header": repr(hp), "line": repr(probe), "buffered": repr(bytes(val)), "expected": repr(body)}
+                    # residues per line after the first sequence line
+                    fin = [r for r in _run_paths(seq_arm, env0, loop_iters=(0,)) if r["path"].status != "raise"]
+                    if not fin:
+                        return None
+                    for r in fin:
+                        v = r["env"].get(rpl)
+                        if v is _UNK or isinstance(v, _Opq) or isinstance(v, bool) or not isinstance(v, int):
+                            return None
+                        if v != len(body) and okr:
+                            okr = False
+                            whyr = f"after a header line ending {hp[-2:]!r} a first sequence line {probe!r} sets residues-per-line to {v}, not {len(body)}: random access into the record seeks to the wrong byte"
+                            wr = {"header": repr(hp), "line": repr(probe), "residues_per_line": v, "expected": len(body)}
+    return (okp, whyp, wp), (okr, whyr, wr), n
 
 
 def _seq_locals(seq_branch, line):
